@@ -237,6 +237,9 @@ def run_ctor(ctx, fname, n, variant, oi, part, focus=None):
     tier = ctx.tier
     opt = fam.ctor_options(tier)[oi]
     fx = Fx(n, variant, ctx.seed, layout=opt.get("layout", "2x2"))
+    if hasattr(fam, "valid") and not fam.valid(fx, opt):
+        ctx.count("skipped-invalid:kinship-not-positive-definite")     # a Cholesky factor does not exist: not a valid problem
+        return
     U = Unit(fam, fx, opt, tier)
     base = dict(spec=["ctor", fname, n, variant, oi, part], family=fname, fixture=fx.key(), opt=opt)
     encs = [e for e in FM.ENCS if e in fam.classes]
